@@ -113,16 +113,10 @@ theorem expandCheck_tvar_inv {p S : Ty} (h : expandCheck (.tupleVar p) S = .ok (
 theorem atom_iterable_strbytes {c : Cls} {p : Payload} (h : (V.atom c p).std = true)
     (hi : issub c .Iterable = true) : isStrBytes c = true := by
   simp only [V.std] at h
-  unfold atomOK at h
-  cases p <;> simp only [] at h
-  · have : c = .NoneType := by simpa using h
-    subst this; revert hi; decide
-  · simp only [Bool.or_eq_true, Bool.and_eq_true, beq_iff_eq] at h
-    rcases h with (h | h) | ⟨h, _⟩ <;> subst h <;> revert hi <;> decide
-  · simp only [Bool.or_eq_true, beq_iff_eq] at h
-    rcases h with h | h <;> subst h <;> revert hi <;> decide
-  · simp only [Bool.and_eq_true, beq_iff_eq] at h
-    have := h.1; subst this; decide
+  have h0 : (!(isAtomCls c && issub c .Iterable) || isStrBytes c) = true :=
+    forall_cls (P := fun c => !(isAtomCls c && issub c .Iterable) || isStrBytes c) (by decide) c
+  rw [atomOK_cls h, hi] at h0
+  simpa using h0
 
 theorem genOrigin_iterable {o : Cls} {n : Nat} (h : genOK o n = true) : issub o .Iterable = true := by
   have h0 : (!(isGenOrigin o) || issub o .Iterable) = true :=
